@@ -9,7 +9,10 @@ FUNCS = ["transitions.topdown", "transitions.inorder", "transitions._inorder", "
 ASSUMPTIONS = ["head assignment = one symbolic head index per constituent, then transform.binarize (the real one) for the "
                "top-down and gap systems; the in-order system also on the unbinarized tree",
                "replay automata (harness/c10.py): right-to-left stack machine for the reversed-preorder top-down system, "
-               "PJ/REDUCE machine for in-order, stack/deque/buffer machine of Coavoux & Crabbe for gap",
+               "PJ/REDUCE machine for in-order, stack/deque/buffer machine of Coavoux & Crabbe for gap, in the variant the tool itself simulates: when "
+               "the deque is flushed onto the stack (before SHIFT, after REDUCE) its items are pushed one by one from the top, "
+               "so items that were gapped over return in reversed order; the golden sequence of tests/test_transitions.py "
+               "replays to its tree only under this variant (order-preserving flush rebuilds another tree from it)",
                "all shapes E1(m, n) inside the bound, incl. one-token sentences and unary chains at the root and above tokens"]
 OUTSIDE = ["larger trees"]
 
